@@ -17,6 +17,7 @@
 """This module contains utilities for plotting results."""
 from __future__ import annotations
 
+import json
 import pickle  # nosec B403
 from pathlib import Path
 from typing import TYPE_CHECKING
@@ -45,10 +46,19 @@ def _get_samplers_id_table(saving_folder: str | os.PathLike) -> dict[str, int]:
     Returns:
         the id table of the samplers
     """
+    params_file = Path(saving_folder) / "calibration_params.json"
+    if params_file.exists():
+        with params_file.open() as f:
+            samplers_id_table = json.load(f).get("samplers_id_table")
+        if samplers_id_table is not None:
+            return samplers_id_table
+
+    # checkpoints that do not store the table: rebuild it from the pickled scheduler (or list of samplers)
     output_file = Path(saving_folder) / "scheduler_pickled.pickle"
     with output_file.open("rb") as f:
-        method_list = pickle.load(f)  # nosec B301
+        scheduler = pickle.load(f)  # nosec B301
 
+    method_list = list(getattr(scheduler, "samplers", scheduler))
     return Calibrator._construct_samplers_id_table(method_list)  # noqa: SLF001
 
 
